@@ -116,9 +116,9 @@ def compile_batch(tag, fns):
     shutil.rmtree(d, ignore_errors=True)
     os.makedirs(os.path.join(d, "src"))
     os.makedirs(os.path.join(d, ".cargo"))
-    shutil.copy("/repo/Cargo.lock", os.path.join(d, "Cargo.lock"))
+    shutil.copy(os.path.join(vlib.REPO, "Cargo.lock"), os.path.join(d, "Cargo.lock"))
     open(os.path.join(d, "Cargo.toml"), "w").write(
-        '[package]\nname = "progs"\nversion = "0.1.0"\nedition = "2021"\n[workspace]\n[dependencies]\nprefix-trie = { path = "/repo", default-features = false }\n')
+        '[package]\nname = "progs"\nversion = "0.1.0"\nedition = "2021"\n[workspace]\n[dependencies]\nprefix-trie = { path = "%s", default-features = false }\n' % vlib.REPO)
     open(os.path.join(d, ".cargo", "config.toml"), "w").write('[net]\noffline = true\n[build]\ntarget-dir = "%s"\n' % os.path.join(vlib.WORK, "progs_target"))
     src = [HEADER, "fn assert_send<T: Send>() {}", "fn assert_sync<T: Sync>() {}"]
     spans = []
